@@ -186,7 +186,7 @@ theorem C09_front_on_sealed_enc (P : Prims) (hS : WireSizes P) (bs : Nat) (hbs :
     (hs : Encrypt.sealPackets P bs v sender rs eph pk pt = .ok (h, hb, blks))
     (he : Encrypt.encodeBlocks v blks = .ok body) (hhb : hb.length < 2 ^ 32) :
     Front.readEnc (headerPacket hb ++ body) = .ok (.ok hb h, ⟨(blks.map (encAsRead v)).map some, .eof⟩) :=
-  orWire_of_codec (bridge_seal_enc P hS bs hbs hbs32 v sender rs eph pk pt hpk hpub h hb blks body hs he hhb).2
+  readEnc_of_codec_eof (bridge_seal_enc P hS bs hbs hbs32 v sender rs eph pk pt hpk hpub h hb blks body hs he hhb).2
 
 /-! ## non-vacuity (kernel-evaluated) -/
 
